@@ -335,6 +335,7 @@ Query_G(s, e) ==
   [ valid |-> TRUE,
     found |-> CASE e.q \in {"Bridge", "LastFinalizedOutput"} -> Has(s.cfg, K(e.b))
                 [] e.q = "OutputProposal" -> Has(s.outs, K(e.b)) /\ Has(s.outs[K(e.b)], K(e.idx))
+                [] e.q = "TokenPairByL2Denom" -> Has(s.pairs, K(e.b)) /\ Has(s.pairs[K(e.b)], L2DenomOf(e.b, e.denom))
                 [] OTHER -> TRUE ]
 Query_R(s, e) ==
   CASE e.q = "Bridge" -> [proposer |-> s.cfg[K(e.b)].proposer, challenger |-> s.cfg[K(e.b)].challenger, period |-> s.cfg[K(e.b)].period, addr |-> Esc(e.b)]
@@ -345,6 +346,12 @@ Query_R(s, e) ==
     [] e.q = "OutputProposals" -> [idxs |-> Page(OutIdxSeq(s, e.b), e.offset, e.limit, e.reverse), total |-> Total(OutIdxSeq(s, e.b), e.offset)]
     [] e.q = "BatchInfos" -> [n |-> Len(Page(s.batch[K(e.b)], e.offset, e.limit, e.reverse)), total |-> Total(s.batch[K(e.b)], e.offset)]
     [] e.q = "TokenPairByL1Denom" -> [l2denom |-> L2DenomOf(e.b, e.denom)]
+    [] e.q = "TokenPairByL2Denom" -> [l1denom |-> s.pairs[K(e.b)][L2DenomOf(e.b, e.denom)]]
+    [] e.q = "TokenPairs" -> LET n == IF Has(s.pairs, K(e.b)) THEN Cardinality(DOMAIN s.pairs[K(e.b)]) ELSE 0
+                                 all == [i \in 1..n |-> i] IN      \* store order of the L2 denoms is not specified: the page size and the total are
+                             [n |-> Len(Page(all, e.offset, e.limit, e.reverse)), total |-> Total(all, e.offset)]
+    [] e.q = "Claimed" -> [claimed |-> Has(s.claimed, K(e.b)) /\ Has(s.claimed[K(e.b)], LeafId(e.b, e.w))]
+    [] e.q = "Params" -> [fee |-> s.fee]
 
 ----------------------------------------------------------------------------
 Guards(s, e) ==
